@@ -231,6 +231,7 @@ def activate_extra_findings(chk):
         entries = json.load(f)
     saved = list(chk.active_matchers)
     add = []
+    scan = os.environ.pop("VERIF_SCAN", None)      # scan mode collects violations instead of raising them
     for kf in entries:
         if kf.get("property") != chk.pid or kf.get("status") != "known":
             continue
@@ -243,6 +244,8 @@ def activate_extra_findings(chk):
             chk.guarded(rp["case"])
         except engine.Violation:
             add.append((kf["id"], kf["matcher"]))
+    if scan is not None:
+        os.environ["VERIF_SCAN"] = scan
     chk.active_matchers = saved + add
     chk.evals = 0
     chk.classes, chk.skipped, chk.samples = {}, {}, []
